@@ -493,6 +493,188 @@ theorem punctProcess_inv (hrc : ComposeSpec env.recompose) (k : Key) {c : Ctx} (
                 | exact pushInput_inv hrc (alternatePunct_inv _ _ h) _
                 | exact punctFinish_inv hrc _ _ (pushInput_inv hrc (alternatePunct_inv _ _ h) _)
 
+/-! ascii composer -/
+
+/-- a state that differs only in fields the invariant does not mention -/
+theorem Inv.frame {c c' : Ctx} (h : Inv c) (h1 : c'.input = c.input) (h2 : c'.caret = c.caret) (h3 : c'.comp = c.comp) : Inv c' :=
+  h.of_same h1 h2 (by rw [h3]; exact h.segs_ok) (by rw [h3])
+
+theorem acUnpress_inv {c : Ctx} (h : Inv c) : Inv (acUnpress c) := h.frame rfl rfl rfl
+
+theorem acSwitch_inv (hrc : ComposeSpec env.recompose) (m : Bool) (st : AcStyle) {c : Ctx} (h : Inv c) :
+    Inv (acSwitch env m st c) := by
+  unfold acSwitch
+  refine setOption_inv hrc ?_ _ _
+  have h0 : Inv { c with acInline := false } := h.frame rfl rfl rfl
+  split
+  · cases st <;> dsimp only
+    · split
+      · exact h.frame rfl rfl rfl
+      · exact h0
+    · exact confirmCurrentSelection_inv hrc h0
+    · exact commit_inv hrc (clearNonConfirmedComposition_inv h0)
+    · exact clear_inv hrc _
+  · exact h
+
+theorem acToggleWithKey_inv (hrc : ComposeSpec env.recompose) (code : Int) {c : Ctx} (h : Inv c) :
+    Inv (acToggleWithKey env code c) := by
+  unfold acToggleWithKey
+  split
+  · exact h
+  · exact (acSwitch_inv hrc _ _ h).frame rfl rfl rfl
+
+theorem acCapsLock_inv (hrc : ComposeSpec env.recompose) (st : AcStyle) (k : Key) {c : Ctx} (h : Inv c) :
+    Inv (acCapsLock env st k c).1 := by
+  unfold acCapsLock
+  dsimp only
+  (repeat' split) <;>
+    first
+      | exact h
+      | exact acUnpress_inv h
+      | exact commitBuf_inv h _
+      | exact acSwitch_inv hrc _ _ ((acUnpress_inv h).frame rfl rfl rfl)
+
+theorem acModifierKey_inv (hrc : ComposeSpec env.recompose) (b : Bool) (k : Key) {c : Ctx} (h : Inv c) :
+    Inv (acModifierKey env b k c).1 := by
+  unfold acModifierKey
+  dsimp only
+  (repeat' split) <;>
+    first
+      | exact h
+      | exact h.frame rfl rfl rfl
+      | exact acUnpress_inv h
+      | exact acUnpress_inv (acToggleWithKey_inv hrc _ h)
+
+theorem acOtherKey_inv (hrc : ComposeSpec env.recompose) (k : Key) {c : Ctx} (h : Inv c) : Inv (acOtherKey env k c).1 := by
+  unfold acOtherKey
+  dsimp only
+  (repeat' split) <;> first | exact acUnpress_inv h | exact pushInput_inv hrc (acUnpress_inv h) _
+
+theorem asciiProcess_inv (hrc : ComposeSpec env.recompose) (k : Key) {c : Ctx} (h : Inv c) : Inv (asciiProcess env k c).1 := by
+  unfold asciiProcess
+  have hr : Inv (acCapsStep env k c).1 := by
+    unfold acCapsStep
+    split
+    · exact acCapsLock_inv hrc _ k h
+    · exact h
+  generalize acCapsStep env k c = r at hr
+  dsimp only
+  (repeat' split) <;>
+    first
+      | exact acUnpress_inv h
+      | exact hr
+      | exact acToggleWithKey_inv hrc _ (acUnpress_inv hr)
+      | exact acModifierKey_inv hrc _ k hr
+      | exact acOtherKey_inv hrc k hr
+
+theorem acSettle_inv {c : Ctx} (h : Inv c) : Inv (acSettle c) := by
+  unfold acSettle
+  split
+  · exact h.frame rfl rfl rfl
+  · exact h
+
+/-! shape post-processor, key binder -/
+
+theorem shapePost_inv (k : Key) {c : Ctx} (h : Inv c) : Inv (shapePost k c).1 := by
+  unfold shapePost
+  (repeat' split) <;> first | exact h | exact commitBuf_inv h _
+
+theorem kbLastKey_inv {c : Ctx} (h : Inv c) (v : Int) : Inv { c with kbLastKey := v } :=
+  h.of_same rfl rfl h.segs_ok
+
+theorem foldl_inv {α : Type} (f : Ctx → α → Ctx) (hf : ∀ c a, Inv c → Inv (f c a)) :
+    ∀ (l : List α) {c : Ctx}, Inv c → Inv (l.foldl f c)
+  | [], _, h => h
+  | a :: l, _, h => foldl_inv f hf l (hf _ a h)
+
+theorem radioSelect_inv (hrc : ComposeSpec env.recompose) (group : List String) (idx : Nat) {c : Ctx} (h : Inv c) :
+    Inv (radioSelect env group idx c) := by
+  unfold radioSelect
+  refine foldl_inv _ ?_ _ h
+  intro c o hc
+  dsimp only
+  split
+  · exact setOption_inv hrc hc _ _
+  · exact hc
+
+theorem kbToggle_inv (hrc : ComposeSpec env.recompose) (opt : String) {c : Ctx} (h : Inv c) : Inv (kbToggle env opt c) := by
+  unfold kbToggle
+  split
+  · split
+    · dsimp only
+      (repeat' split) <;> first | exact h | exact radioSelect_inv hrc _ _ h
+    · exact setOption_inv hrc h _ _
+  · exact setOption_inv hrc h _ _
+
+theorem kbSet_inv (hrc : ComposeSpec env.recompose) (opt : String) {c : Ctx} (h : Inv c) : Inv (kbSet env opt c) := by
+  unfold kbSet
+  (repeat' split) <;> first | exact h | exact radioSelect_inv hrc _ _ h | exact setOption_inv hrc h _ _
+
+theorem kbUnset_inv (hrc : ComposeSpec env.recompose) (opt : String) {c : Ctx} (h : Inv c) : Inv (kbUnset env opt c) := by
+  unfold kbUnset
+  dsimp only
+  (repeat' split) <;> first | exact h | exact radioSelect_inv hrc _ _ h | exact setOption_inv hrc h _ _
+
+theorem kbReinterpret_inv (hrc : ComposeSpec env.recompose) (k : Key) {c : Ctx} (h : Inv c) : Inv (kbReinterpret env k c).1 := by
+  unfold kbReinterpret
+  dsimp only
+  (repeat' split) <;> first | exact h | exact kbLastKey_inv h _ | exact kbLastKey_inv (pushInput_inv hrc h _) _
+
+/-- the key binder's redirection keeps the invariant whatever function plays the engine's ProcessKey, provided that
+function keeps it -/
+theorem kbPerform_inv (hrc : ComposeSpec env.recompose) (reent : Key → Ctx → Ctx × Bool)
+    (hre : ∀ k c, Inv c → Inv (reent k c).1) (a : KbAction) {c : Ctx} (h : Inv c) : Inv (kbPerform reent env a c) := by
+  unfold kbPerform
+  cases a <;> dsimp only
+  · exact foldl_inv _ (fun c kk hc => hre _ _ hc) _ h
+  · exact kbToggle_inv hrc _ h
+  · exact kbSet_inv hrc _ h
+  · exact kbUnset_inv hrc _ h
+
+theorem kbProcess_inv (hrc : ComposeSpec env.recompose) (reent : Key → Ctx → Ctx × Bool)
+    (hre : ∀ k c, Inv c → Inv (reent k c).1) (k : Key) {c : Ctx} (h : Inv c) : Inv (kbProcess reent env k c).1 := by
+  unfold kbProcess
+  have h1 := kbReinterpret_inv hrc k h
+  dsimp only
+  (repeat' split) <;> first | exact h | exact h1 | exact kbPerform_inv hrc reent hre _ h1
+
+theorem procRunInner_inv (hrc : ComposeSpec env.recompose) (p : Proc) (k : Key) {c : Ctx} (h : Inv c) :
+    Inv (procRunInner env p k c).1 := by
+  unfold procRunInner
+  cases p <;> dsimp only
+  · exact spellerProcess_inv hrc k h
+  · exact selectorProcess_inv hrc k h
+  · exact navigatorProcess_inv hrc k h
+  · exact editorProcess_inv hrc false k h
+  · exact editorProcess_inv hrc true k h
+  · exact h
+  · exact punctProcess_inv hrc k h
+  · exact h
+  · exact asciiProcess_inv hrc k h
+
+theorem chainInner_inv (hrc : ComposeSpec env.recompose) (k : Key) : ∀ (ps : List Proc) {c : Ctx}, Inv c →
+    Inv (chainInner env k ps c).1
+  | [], _, h => h
+  | p :: ps, c, h => by
+    unfold chainInner
+    have h1 := procRunInner_inv hrc p k h
+    dsimp only
+    split
+    · exact h1
+    · exact h1
+    · exact chainInner_inv hrc k ps h1
+
+/-- the nested `engine_->ProcessKey(target)` keeps the invariant -/
+theorem processKeyNested_inv (hrc : ComposeSpec env.recompose) (k : Key) {c : Ctx} (h : Inv c) :
+    Inv (processKeyNested env k c).1 := by
+  unfold processKeyNested
+  have h1 := chainInner_inv hrc k env.processors h
+  dsimp only
+  refine acSettle_inv ?_
+  split
+  · exact h1
+  · exact shapePost_inv _ h1
+
 /-! chain and API -/
 
 theorem procRun_inv (hrc : ComposeSpec env.recompose) (p : Proc) (k : Key) {c : Ctx} (h : Inv c) :
@@ -506,6 +688,8 @@ theorem procRun_inv (hrc : ComposeSpec env.recompose) (p : Proc) (k : Key) {c : 
   · exact editorProcess_inv hrc true k h
   · exact h
   · exact punctProcess_inv hrc k h
+  · exact kbProcess_inv hrc _ (fun k c hc => processKeyNested_inv hrc k hc) k h
+  · exact asciiProcess_inv hrc k h
 
 theorem chain_inv (hrc : ComposeSpec env.recompose) (k : Key) : ∀ (ps : List Proc) {c : Ctx}, Inv c →
     Inv (chain env k ps c).1
